@@ -110,8 +110,9 @@ class Model:
             self.readonly += [(0x00000, 0x3FFFF), (0xC0000, 0xFFFFF)]
         self.absent_seen: Dict[int, int] = {}
 
-    def _add_ov(self, ov):
-        self.ov = [o for o in self.ov if o["name"] != ov["name"]]
+    def _add_ov(self, ov, replace=True):
+        if replace:
+            self.ov = [o for o in self.ov if o["name"] != ov["name"]]
         self.ov.append(ov)
         self.ov.sort(key=lambda o: (o["start"], o["end"], o["name"]))
 
@@ -321,7 +322,9 @@ def _apply_cfg(model: Model, op: list) -> None:
         model._add_ov({"start": 0x40000, "end": 0x4FFFF, "name": "memory_card_slot", "kind": "absent"})
         model.absent_seen = {}
     elif k == "ram":
-        model._add_ov({"start": op[2], "end": op[2] + op[3] - 1, "name": op[4], "kind": "ram", "data": {}, "fill": 0})
+        # Rust add_ram_overlay replaces an overlay of the same name; Python add_ram keeps both (first match wins)
+        model._add_ov({"start": op[2], "end": op[2] + op[3] - 1, "name": op[4], "kind": "ram", "data": {}, "fill": 0},
+                      replace=(model.ex == "rs-mem"))
     elif k == "rm":
         model.remove_ov(op[2])
 
